@@ -1089,14 +1089,29 @@ func c01R7(c *Ctx) {
 		c.Unres("C01.R7", "Manager.Allocate / NetworkInterface.Allocate", "not found")
 		return
 	}
-	sites := p.CallsTo([]*FuncInfo{fn}, niAlloc)
+	scope := p.PrivateClosure(fn, 2)
+	sites := p.CallsTo(scope, niAlloc)
 	c.Floor("C01.R7", "NetworkInterface.Allocate call sites in Manager.Allocate", 1, len(sites))
-	la := NewLockAnalysis(p, fn)
-	info := fn.Info()
+	laTop := NewLockAnalysis(p, fn)
+	lock := objID(recvObj(fn))
 	for _, cs := range sites {
-		held := la.HeldBefore(cs.Call)
-		lock := objID(recvObj(fn))
-		c.Check(held[lock] == 'W', "C01.R7", "ni.Allocate under the manager write lock", p.Pos(cs.Call), fn.Key(), "held ∋ W:"+lock, "held="+held.String())
+		top := fn
+		fn := cs.Fn
+		info := fn.Info()
+		if fn == top {
+			held := laTop.HeldBefore(cs.Call)
+			c.Check(held[lock] == 'W', "C01.R7", "ni.Allocate under the manager write lock", p.Pos(cs.Call), fn.Key(), "held ∋ W:"+lock, "held="+held.String())
+		} else {
+			// a private helper of Manager.Allocate: every call of it happens under the write lock
+			hcs := p.callSitesOf(top, fn)
+			if len(hcs) == 0 {
+				c.Undec("C01.R7", "ni.Allocate under the manager write lock", p.Pos(cs.Call), fn.Key(), "held ∋ W:"+lock, "helper not called directly from Manager.Allocate")
+			}
+			for _, hc := range hcs {
+				held := laTop.HeldBefore(hc.Call)
+				c.Check(held[lock] == 'W', "C01.R7", "ni.Allocate under the manager write lock", p.Pos(hc.Call), top.Key(), "held ∋ W:"+lock+" at the call of "+fn.Key(), "held="+held.String())
+			}
+		}
 		// the channel variable assigned by the call
 		var chVar types.Object
 		var asn *ast.AssignStmt
